@@ -28,6 +28,7 @@ DRIVE = z3.Function("os_path_splitdrive_drive", S, S)
 TAIL = z3.Function("os_path_splitdrive_tail", S, S)
 ISABS = z3.Function("os_path_isabs", S, z3.BoolSort())
 NORM = z3.Function("is_normalised_absolute", S, z3.BoolSort())
+NORMPATH = z3.Function("os_path_normpath", S, S)
 SEP = z3.StringVal("/")
 
 
@@ -95,6 +96,21 @@ def m_commonpath(ex, st, args, kwargs, node):
     return [(st, VStr(r))]
 
 
+def m_relpath(ex, st, args, kwargs, node):
+    """os.path.relpath(t, b) for normalised absolute t, b (POSIX): the result climbs (is `..` or starts with `../`) iff t is not b and does not
+    lie below b; it is `.` iff t == b.  Anything else about it stays unconstrained."""
+    if len(args) != 2 or kwargs or not all(isinstance(x, VStr) for x in args):
+        return ex.havoc_call(st, "os.path.relpath", args, node)
+    t, b = args[0].t, args[1].t
+    r = z3.String(fresh_name("relpath"))
+    below = z3.Or(t == b, z3.PrefixOf(z3.Concat(b, SEP), t), z3.And(z3.SuffixOf(SEP, b), z3.PrefixOf(b, t)))
+    climbs = z3.Or(r == z3.StringVal(".."), z3.PrefixOf(z3.StringVal("../"), r))
+    st.assume(z3.Implies(z3.And(NORM(t), NORM(b)), z3.And(climbs == z3.Not(below), (r == z3.StringVal(".")) == (t == b), z3.Length(r) > 0)))
+    if not (ex.feasible(st.pc, z3.And(NORM(t), NORM(b))) and not ex.feasible(st.pc, z3.Not(z3.And(NORM(t), NORM(b))))):
+        ex.exc_any(st.fork(), f"{ex.loc(node)} os.path.relpath on paths not known to be normalised absolute")
+    return [(st, VStr(r))]
+
+
 def m_isabs(ex, st, args, kwargs, node):
     return [(st, VBool(ISABS(args[0].t)))]
 
@@ -155,7 +171,11 @@ def install(reg):
     reg.ext_models["os.path.isabs"] = m_isabs
     reg.ext_models["os.path.commonprefix"] = m_commonprefix
     reg.ext_models["os.path.commonpath"] = m_commonpath
-    reg.ext_models[("const", "os.sep")] = VStr("/")
+    reg.ext_models["os.path.relpath"] = m_relpath
+    reg.ext_models["os.path.normpath"] = lambda ex, st, args, kwargs, node: ([(st, VStr(NORMPATH(args[0].t)))] if len(args) == 1 and isinstance(args[0], VStr) and not kwargs
+                                                                             else ex.havoc_call(st, "os.path.normpath", args, node))
+    for k, v in (("os.sep", "/"), ("os.path.sep", "/"), ("os.pardir", ".."), ("os.path.pardir", ".."), ("os.curdir", "."), ("os.path.curdir", ".")):
+        reg.ext_models[("const", k)] = VStr(v)            # POSIX (the replayer runs the real functions on this platform)
     for k in ("os.path.exists", "os.path.lexists", "os.path.isfile", "os.path.isdir", "os.path.getsize", "os.unlink", "os.rmdir"):
         reg.ext_models[k] = fs_call(k)
     reg.ext_models["os.makedirs"] = fs_call("os.makedirs")
@@ -386,42 +406,68 @@ def _native(req, repo, timeout=300):
         return {"error": str(e)}
 
 
+PINNED_OID = "C09/replay::native-scope/bounded#7z-read-back-path-identifies-one-member-when-the-temp-dir-name-is-known.BOUNDED"
+PINNED_FINDING = "C09-7z-read-back-collision-through-temp-dir-name"
+NATIVE_SCOPES = ((COLLISION_OID, COLLISION_FINDING, "4 collision layouts x (solid, one folder per file), per-member limit 1000 bytes"),
+                 (PINNED_OID, PINNED_FINDING, "3 layouts re-entering the private directory through its (pinned) name x (solid, one folder per file), per-member limit 1000 bytes"))
+
+
+def _native_scope(oid, bound, repo):
+    import json
+    res = _native({"property": "C09", "obligation": oid, "repo": repo}, repo)
+    if "error" in res or "crashed" in str(res.get("note", "")):
+        return {"obligations": [], "undecided": [{"obligation": oid, "why": "native scope could not run: " + str(res.get("error", res.get("note")))[:300]}]}
+    ok = not res.get("reproduced")
+    o = ground_obligation(oid, ok, "" if ok else f"{json.dumps((res.get('inputs') or {}).get('archive'))}: {str(res.get('observed'))[:300]}",
+                          "replay/C09_probe.py", kind="bounded", backend="native-replay")
+    o["bounded"] = True
+    o["bound"] = bound
+    return {"obligations": [o]}
+
+
 def native_collisions(repo, tier):
     """BOUNDED stand-in (DESIGN 2.8): 7z members are read back from the temp dir by path, and no contract says that a path belongs to one
     entry only.  The native scope (entries sharing a name, `x` vs `./x`, `x` vs `__MACOSX/../x`, `d/x` vs `d//x`; solid and one folder per
     file) runs on the real code: a selected member that comes out with another entry's bytes is a failing input; nothing found is
     `bounded-ok`, never counted as proved."""
-    import json
-    res = _native({"property": "C09", "obligation": COLLISION_OID, "repo": repo}, repo)
-    if "error" in res or "crashed" in str(res.get("note", "")):
-        return {"obligations": [], "undecided": [{"obligation": COLLISION_OID, "why": "native scope could not run: " + str(res.get("error", res.get("note")))[:300]}]}
-    ok = not res.get("reproduced")
-    o = ground_obligation(COLLISION_OID, ok, "" if ok else f"{json.dumps((res.get('inputs') or {}).get('archive'))}: {str(res.get('observed'))[:300]}",
-                          "replay/C09_probe.py", kind="bounded", backend="native-replay")
-    o["bounded"] = True
-    o["bound"] = "4 collision layouts x (solid, one folder per file), per-member limit 1000 bytes"
-    return {"obligations": [o]}
+    try:
+        return _native_scope(COLLISION_OID, NATIVE_SCOPES[0][2], repo)
+    except Exception as e:  # noqa
+        return {"obligations": [], "undecided": [{"obligation": COLLISION_OID, "why": f"native scope could not run: {type(e).__name__}: {e}"}]}
+
+
+def native_collisions_known_temp_name(repo, tier):
+    """BOUNDED, its own obligation: the second spelling of a member's path leaves the private directory and re-enters it through the
+    directory's own name (`../<temp dir name>/x` is lexically inside, so `_safe_join` accepts it, and it is the file of `x`).  The name is
+    random in production; the scope pins tempfile's name sequence (an author who knows or guesses the name)."""
+    try:
+        return _native_scope(PINNED_OID, NATIVE_SCOPES[1][2], repo)
+    except Exception as e:  # noqa
+        return {"obligations": [], "undecided": [{"obligation": PINNED_OID, "why": f"native scope could not run: {type(e).__name__}: {e}"}]}
 
 
 def known_findings(kf, violations, repo, tier):
-    """The recorded defect covers exactly its own bounded obligation, and only while that obligation still fails on the tree under check."""
+    """A recorded defect covers exactly its own bounded obligation, and only while that obligation still fails on the tree under check."""
     out = []
     vio_ids = {v["id"] for v in violations}
+    by_finding = {fid: oid for oid, fid, _b in NATIVE_SCOPES}
     for f in kf:
-        if f.get("id") != COLLISION_FINDING:
+        oid = by_finding.get(f.get("id"))
+        if oid is None:
             continue
-        still = COLLISION_OID in vio_ids
-        out.append({"finding": f["id"], "still_fails": still, "line": f"{f['id']}: {f['what']}", "covers": [COLLISION_OID] if still else [],
-                    "witness_replay": next((v.get("reason") for v in violations if v["id"] == COLLISION_OID), "")})
+        still = oid in vio_ids
+        out.append({"finding": f["id"], "still_fails": still, "line": f"{f['id']}: {f['what']}", "covers": [oid] if still else [],
+                    "witness_replay": next((v.get("reason") for v in violations if v["id"] == oid), "")})
     return out
 
 
-EXTRA = [policy, native_collisions]
+EXTRA = [policy, native_collisions, native_collisions_known_temp_name]
 TRUSTED = ["a normalised absolute path equal to abspath(base) or prefixed by abspath(base)+sep lies inside base (no symlinks are created by the reader)",
            "os.path.abspath returns a normalised absolute path",
            "a normalised absolute path that ends in a separator is the file-system root: every normalised absolute path with that prefix lies inside it"]
-ASSUMED_MODELS = ["os.path.abspath/join/splitdrive/isabs (uninterpreted)", "os.path.commonprefix([a, b]) (character prefix; == a iff a is a prefix of b)",
-                  "os.path.commonpath([a, b]) on normalised absolute paths (== a iff b is a or lies below a)", "open/os.makedirs/os.path.exists (effects with confinement obligation)",
+ASSUMED_MODELS = ["os.path.abspath/join/splitdrive/isabs/normpath (uninterpreted)", "os.path.commonprefix([a, b]) (character prefix; == a iff a is a prefix of b)",
+                  "os.path.commonpath([a, b]) on normalised absolute paths (== a iff b is a or lies below a)",
+                  "os.path.relpath(t, b) on normalised absolute paths (climbs with `..` iff t is neither b nor below b)", "os.sep / os.pardir / os.curdir (POSIX values)", "open/os.makedirs/os.path.exists (effects with confinement obligation)",
                   "archive_extractor._process_archive_entry (C01)", "archive_extractor._is_supported_file_cached (C07/C15)"]
 ASSUMPTIONS = ["PY-STR", "EXC-ANY", "what third-party extractors do with member *bytes* is outside this property's contracts",
                "OS-level races (symlink swaps in the temp dir by another process) are not modelled"]
